@@ -485,3 +485,32 @@ def ll_collection_mixed(ctx, name):
 for _w in ("meet", "join"):
     case("C02", "LL.collection.mixed.3d.%s" % _w, names("a", 4) + names("b", 4) + names("c", 4) + names("p", 4) + names("q", 4) + names("r", 4) + names("s", 4), mode="field",
          functions=FUN, max_paths=1200, explore_time=600, assumptions=["collection shape (2,) enumerated"])(lambda ctx, _w=_w: ll_collection_mixed(ctx, _w))
+
+
+# ------------------------------------------------------------------------------------------------ aliasing
+@case("C02", "alias.same.object", names("p", 3) + names("q", 4) + names("r", 4) + names("e", 4), mode="field", functions=FUN, max_paths=200,
+      assumptions=["the SAME Python object passed twice (tensor diagrams identify nodes by identity); all kinds, 2D and 3D"])
+def alias_same_object(ctx):
+    """coincident arguments given as one and the same object are linearly dependent: LinearDependenceError, nothing else"""
+    geometer, ex = _g()
+    p, q, r, e = ctx.vec("p", 3), ctx.vec("q", 4), ctx.vec("r", 4), ctx.vec("e", 4)
+    ctx.assume(ctx.neg(ctx.minors_zero(q, r)))
+    for v in (p, q, e):
+        ctx.assume(ctx.neg(ctx.all_zero(v)))
+    with ctx.stubs():
+        P2, L2 = geometer.Point(p), geometer.Line(p)
+        P3, E3 = geometer.Point(q), geometer.Plane(e)
+        L3 = geometer.Line(geometer.Point(q), geometer.Point(r))
+        thunks = [("join(P,P).2d", lambda: geometer.join(P2, P2)), ("meet(l,l).2d", lambda: geometer.meet(L2, L2)), ("l.meet(l).2d", lambda: L2.meet(L2)),
+                  ("join(P,P).3d", lambda: geometer.join(P3, P3)), ("join(P,P,R).3d", lambda: geometer.join(P3, P3, geometer.Point(r))),
+                  ("meet(E,E).3d", lambda: geometer.meet(E3, E3)), ("join(L,L).3d", lambda: geometer.join(L3, L3)), ("meet(L,L).3d", lambda: geometer.meet(L3, L3)),
+                  ("P.join(P).3d", lambda: P3.join(P3))]
+        for name, th in thunks:
+            try:
+                th()
+                got = "returned"
+            except ex.LinearDependenceError:
+                got = "LinearDependenceError"
+            except ex.GeometryException as err:
+                got = type(err).__name__
+            ctx.ensure("%s:raises-LinearDependenceError" % name, got == "LinearDependenceError", got=got)
